@@ -424,9 +424,24 @@ static void cand_str (const NiceCandidate *c, char *out)
       c->priority, a, b, c->foundation);
 }
 
+/* last state announced per (agent, stream, component); -1 = nothing announced yet (the getter then says DISCONNECTED) */
+#define MAXSID 128
+#define MAXCID 8
+static int last_announced[MAXAG][MAXSID][MAXCID];
+static int last_reported[MAXAG][MAXSID][MAXCID];
+static int announced_init = 0;
+static void announced_reset (void)
+{
+  int a, s_, c;
+  for (a = 0; a < MAXAG; a++) for (s_ = 0; s_ < MAXSID; s_++) for (c = 0; c < MAXCID; c++) { last_announced[a][s_][c] = -1; last_reported[a][s_][c] = -2; }
+  announced_init = 1;
+}
+
 static void cb_state (NiceAgent *agent, guint sid, guint cid, guint state, gpointer u)
 {
   Ag *g = ag_of (agent);
+  if (!announced_init) announced_reset ();
+  if (g && sid < MAXSID && cid < MAXCID) last_announced[g - ags][sid][cid] = (int) state;
   NiceComponentState got = nice_agent_get_component_state (agent, sid, cid);
   NiceCandidate *l = NULL, *r = NULL;
   int have = nice_agent_get_selected_pair (agent, sid, cid, &l, &r) ? 1 : 0;
@@ -806,9 +821,38 @@ print_res (NiceAgent *agent)
 
 static struct { char name[16]; int fd; } foreign_tcp[8];
 
+/* C11: "the announced state always matches what the state getter returns": evaluated whenever control is back with
+ * the application, i.e. after every public call and every dispatch batch (= before the next script line is executed) */
+static void check_getters (const char *after)
+{
+  int a;
+  if (!announced_init) announced_reset ();
+  for (a = 0; a < n_ags; a++) {
+    GSList *i; guint c;
+    if (!ags[a].alive || !ags[a].agent) continue;
+    agent_lock (ags[a].agent);
+    for (i = ags[a].agent->streams; i; i = i->next) {
+      NiceStream *st = i->data;
+      for (c = 1; c <= st->n_components && c < MAXCID; c++) {
+        NiceComponent *comp = NULL; int ann, got;
+        if (st->id >= MAXSID || !agent_find_component (ags[a].agent, st->id, c, NULL, &comp) || !comp) continue;
+        got = (int) comp->state; ann = last_announced[a][st->id][c];
+        if ((ann == -1 ? 0 : ann) != got) {
+          if (last_reported[a][st->id][c] != got * 16 + (ann + 1)) {
+            last_reported[a][st->id][c] = got * 16 + (ann + 1);
+            printf ("ev t=%llu %s getter-mismatch %u %u getter=%s announced=%s after=%s\n", (unsigned long long) now_ms (),
+                ags[a].name, st->id, c, state_name (got), ann == -1 ? "nothing" : state_name (ann), after);
+          }
+        } else last_reported[a][st->id][c] = -2;
+      }
+    }
+    agent_unlock (ags[a].agent);
+  }
+}
+
 int main (void)
 {
-  static char line[1 << 20]; char *w[MAXW];
+  static char line[1 << 20]; char *w[MAXW]; static char prev_op[32] = "start";
   setvbuf (stdout, NULL, _IOFBF, 1 << 20);
   verif_now_us = 1000000000ULL;   /* start at t = 1000 s so that "0 = unset" sentinels are not hit */
   ctx = g_main_context_new ();
@@ -818,6 +862,8 @@ int main (void)
     if (line[0] == '#' || line[0] == '\n') continue;
     n = split_words (line, w);
     if (n == 0) continue;
+    check_getters (prev_op);
+    snprintf (prev_op, sizeof prev_op, "%s", w[0]);
     if (!strcmp (w[0], "new") && n >= 2) op_new (w, n);
     else if (!strcmp (w[0], "stream") && n == 3 && (g = find_ag (w[1]))) {
       guint id;
